@@ -259,7 +259,7 @@ theorem sliceFLoop_mono {b : Bytes} {off blen blen' size : Nat} {stop : Nat → 
         exact ih f' (len + 1) n (by omega) h
 
 /-- completeness of the sentinel loop: the first stopping element inside the window is found -/
-theorem sliceFLoop_complete {b : Bytes} {off blen size : Nat} {stop : Nat → Bool} :
+theorem sliceFLoop_finds {b : Bytes} {off blen size : Nat} {stop : Nat → Bool} :
     ∀ (fuel len n : Nat), len ≤ n → (n + 1) * size ≤ blen → n + 1 ≤ fuel + len →
       stop (leN b (off + n * size) size) = true →
       (∀ j, len ≤ j → j < n → stop (leN b (off + j * size) size) = false) →
